@@ -16,7 +16,23 @@ x, y, n, m, k, a, b, q, v = z3.Ints("x y n m k a b q v")
 
 klass(B, fields=dict(value=TInt, length=TInt),
       invariant=["self.value >= 0", "self.length >= 0", "self.value < pow2(self.length)"],
-      construct="Bitset({value}, {length})")
+      construct="Bitset(0, 0)", gen=lambda rnd: _gen_bitset(rnd))
+
+
+def _gen_bitset(rnd):
+    n = rnd.choice([0, 1, 2, 3, 4, 5, 7, 8, 9, 15, 16, 17, 63, 64, 65, 159, 160, 161, 300])
+    r = rnd.random()
+    if n == 0 or r < 0.1:
+        v = 0
+    elif r < 0.2:
+        v = (1 << n) - 1
+    elif r < 0.3:
+        v = 1 << (n - 1)
+    else:
+        v = rnd.getrandbits(n)
+    return dict(value=v, length=n)
+
+
 
 # ---- arithmetic lemmas (L1) ---------------------------------------------------------------------------
 lemma("bitlen_le", [x, n], Imp(And(0 <= x, n >= 0, x < pow2(n)), bitlen(x) <= n),
@@ -64,17 +80,17 @@ lemma("mod_neg_small", [x, n], Imp(And(-n <= x, x < 0), x % n == x + n), pattern
 # ---- Bitset.__init__ (three argument types) -------------------------------------------------------------
 INIT_POST = ["self.length == (length if length != 0 else (bitlen(self.value) if self.value > 0 else 0))"]
 contract(B + ".__init__#int",
-         params=dict(self=BITS, value=TInt, length=TInt), modifies=["self"],
+         params=dict(self=BITS, value=TInt, length=TInt), modifies=["self"], domains=dict(length=SMALL),
          raises={"ValueError": dict(when="length != 0 and bitlen(value if value >= 0 else -value) > length", iff=True)},
          ensures=["self.value == value"] + INIT_POST,
-         witness=[dict(value=5, length=0), dict(value=5, length=3)], props=["C18"])
+         props=["C18"])
 contract(B + ".__init__#bytes",
-         params=dict(self=BITS, value=TBytes, length=TInt), modifies=["self"],
+         params=dict(self=BITS, value=TBytes, length=TInt), modifies=["self"], domains=dict(length=SMALL),
          raises={"ValueError": dict(when="length != 0 and bitlen(b2i(value)) > length", iff=True)},
          ensures=["self.value == b2i(value)"] + INIT_POST,
-         witness=[dict(value=b"\x01\x00", length=16)], props=["C18"])
+         props=["C18"])
 contract(B + ".__init__#bitset",
-         params=dict(self=BITS, value=BITS, length=TInt), modifies=["self"],
+         params=dict(self=BITS, value=BITS, length=TInt), modifies=["self"], domains=dict(length=SMALL),
          raises={"ValueError": dict(when="length != 0 and bitlen(value.value) > length", iff=True)},
          ensures=["self.value == value.value"] + INIT_POST,
          props=["C18"])
@@ -103,11 +119,11 @@ contract(B + ".__xor__", params=dict(self=BITS, value=BITS), returns=BITS,
 contract(B + ".__invert__", params=dict(self=BITS), returns=BITS,
          ensures=["result.value == pow2(self.length) - 1 - self.value", "result.length == self.length", "inv(result)"],
          props=["C18"])
-contract(B + ".__lshift__", params=dict(self=BITS, value=TInt), returns=BITS,
+contract(B + ".__lshift__", params=dict(self=BITS, value=TInt), returns=BITS, domains=dict(value=SMALL),
          requires=["value >= 0"],
          ensures=["result.value == (self.value * pow2(value)) % pow2(self.length)", "result.length == self.length",
                   "inv(result)"], props=["C18"])
-contract(B + ".__rshift__", params=dict(self=BITS, value=TInt), returns=BITS,
+contract(B + ".__rshift__", params=dict(self=BITS, value=TInt), returns=BITS, domains=dict(value=SMALL),
          requires=["value >= 0"],
          ensures=["result.value == self.value // pow2(value)", "result.length == self.length", "inv(result)"],
          props=["C18"])
@@ -128,20 +144,58 @@ contract(B + ".concat", params=dict(self=BITS, b=BITS), returns=BITS,
 contract(B + ".__add__", params=dict(self=BITS, other=BITS), returns=BITS,
          ensures=["result.value == self.value * pow2(other.length) + other.value",
                   "result.length == self.length + other.length", "inv(result)"], props=["C18", "C15"])
-contract(B + ".get_higher_bits", params=dict(self=BITS, bit_len=TInt), returns=BITS,
+contract(B + ".get_higher_bits", params=dict(self=BITS, bit_len=TInt), returns=BITS, domains=dict(bit_len=SMALL),
          raises={"ValueError": dict(when="bit_len < 0 or bit_len > self.length", iff=True)},
          ensures=["result.value == self.value // pow2(self.length - bit_len)", "result.length == bit_len", "inv(result)"],
          lemmas=["bitlen_le", "bitlen_bound"],
          hints=[("div_pow2_lt", ["self.value", "self.length - bit_len", "bit_len"]),
                 ("bitlen_le", ["self.value // pow2(self.length - bit_len)", "bit_len"])],
          props=["C18", "C15"])
-contract(B + ".get_lower_bits", params=dict(self=BITS, bit_len=TInt), returns=BITS,
+contract(B + ".get_lower_bits", params=dict(self=BITS, bit_len=TInt), returns=BITS, domains=dict(bit_len=SMALL),
          raises={"ValueError": dict(when="bit_len < 0 or bit_len > self.length", iff=True)},
          ensures=["result.value == self.value % pow2(bit_len)", "result.length == bit_len", "inv(result)"],
          lemmas=["bitlen_le", "bitlen_bound"],
          hints=[("mul_mod_mul_left", ["self.value", "self.length - bit_len", "bit_len"]),
                 ("bitlen_le", ["self.value % pow2(bit_len)", "bit_len"])],
          props=["C18", "C15"])
-contract(B + ".__getitem__#int", params=dict(self=BITS, s=TInt), returns=TBool,
+contract(B + ".__getitem__#int", params=dict(self=BITS, s=TInt), returns=TBool, domains=dict(s=SMALL),
          requires=["0 <= s", "s < self.length"],
          ensures=["result == ((self.value // pow2(self.length - s - 1)) % 2 == 1)"], props=["C18"])
+
+# ---- slices, iteration, str ------------------------------------------------------------------------------
+BoolL = TList(TBool)
+BoolLS = sort(BoolL)
+st, cnt, p0 = z3.Ints("st cnt p0")
+
+
+def _bit_py(v, L, p):
+    return bool((v >> (L - p - 1)) & 1) if 0 <= L - p - 1 else False
+
+
+pick = specfn("pick", [TInt, TInt, TInt, TInt, TInt], BoolL,
+              py=lambda v, L, start, step, count: [_bit_py(v, L, start + j * step) for j in range(max(count, 0))],
+              doc="bits of (v, L) (MSB first) at positions start, start+step, ... (count of them)")
+pick.define = lambda v, L, start, step, count: z3.If(
+    count <= 0, z3.Empty(BoolLS),
+    z3.Concat(pick(v, L, start, step, count - 1),
+              z3.Unit((v / pow2(L - (start + (count - 1) * step) - 1)) % 2 == 1)))
+
+SL_POST = [
+    "result == pick(self.value, self.length, s.indices(self.length)[0], s.indices(self.length)[2], len(result))",
+    # len(result) is the number of positions of range(start, stop, step)
+    "len(result) == 0 or (s.indices(self.length)[0] + (len(result) - 1) * s.indices(self.length)[2] < s.indices(self.length)[1]"
+    " if s.indices(self.length)[2] > 0 else "
+    "s.indices(self.length)[0] + (len(result) - 1) * s.indices(self.length)[2] > s.indices(self.length)[1])",
+    "not (s.indices(self.length)[0] + len(result) * s.indices(self.length)[2] < s.indices(self.length)[1]"
+    " if s.indices(self.length)[2] > 0 else "
+    "s.indices(self.length)[0] + len(result) * s.indices(self.length)[2] > s.indices(self.length)[1])",
+]
+contract(B + ".__getitem__#slice", params=dict(self=BITS, s=TSlice), returns=BoolL,
+         requires=["s.step is None or s.step != 0"],
+         ensures=SL_POST,
+         locals={"results": BoolL},
+         loops={0: dict(invariant=["len(results) == it",
+                                   "results == pick(self.value, self.length, start, step, it)",
+                                   "0 <= start or step < 0", "start <= self.length", "-1 <= stop", "stop <= self.length",
+                                   "start < self.length or step > 0"])},
+         props=["C18"])
